@@ -71,7 +71,7 @@ def fileMetaOfWritten (md : FooterData) : File.FileMeta :=
 
 theorem flattenList_leaves (cols : List Col) :
     Schema.flattenList (cols.map specLeafNode) =
-      cols.map (fun c => (⟨⟨c.name, some (specRep c.rep), some c.ptype.code, (c.typeLen : Int), none⟩, 0⟩ : Schema.Element)) := by
+      cols.map (fun c => (⟨⟨c.name, some (specRep c.rep), some c.ptype.code, (c.typeLen : Int), none, specLogicalOf c⟩, 0⟩ : Schema.Element)) := by
   induction cols with
   | nil => rfl
   | cons c cs ih => simp [Schema.flattenList, Schema.flatten, specLeafNode, ih]
@@ -80,20 +80,37 @@ theorem repCode_specRep (r : Rep) : File.repCode (specRep r) = (r.code : Int) :=
 
 theorem rootTV (n : Nat) :
     schemaElementTV ({ name := some (FileReal.strBytes "schema"), numChildren := n } : SchemaElement) =
-      TVal.struct (seFields ⟨⟨"schema", none, none, 0, none⟩, n⟩) := by
+      TVal.struct (seFields ⟨⟨"schema", none, none, 0, none, none⟩, n⟩) := by
   by_cases h0 : n = 0
   · simp [schemaElementTV, seFields, fOpt, fPos, fNonZero, fLogical, File.optField, strBytes_eq, h0]
   · have hpos : 0 < n := by omega
     simp [schemaElementTV, seFields, fOpt, fPos, fNonZero, fLogical, File.optField, strBytes_eq, hpos, h0]
 
+/-- the Thrift value of a time unit, in the writer model's and in the independent reader's terms -/
+theorem timeUnitTV_spec (u : TimeUnit) : timeUnitTV u = File.annotUnitTV (specUnit u) := by cases u <;> rfl
+
+/-- **field 10 of a written column element**: what `write_schema_element` / `write_logical_type` emit for the
+logical type `build_file_metadata` sets is the LogicalType union value that STATES the annotation the
+column was created with (one member, every required field of the member struct) — and no field 10
+at all for a NULL pointer or id UNKNOWN -/
+theorem fLogical_written (c : Col) :
+    fLogical (colLogical c) = File.optField 10 File.annotationTV (specLogicalOf c) := by
+  unfold colLogical specLogicalOf
+  cases c.logical with
+  | none => rfl
+  | some lt =>
+    cases lt <;> first
+      | rfl
+      | simp [fLogical, logicalTypeTV, timeTV, f1, timeUnitTV_spec, specLogical, File.optField, File.annotationTV]
+
 theorem leafTV (c : Col) :
-    schemaElementTV ({ type := some c.ptype.code, typeLength := c.typeLen, repetition := some c.rep.code,
-                       name := some (FileReal.strBytes c.name) } : SchemaElement) =
-      TVal.struct (seFields ⟨⟨c.name, some (specRep c.rep), some c.ptype.code, (c.typeLen : Int), none⟩, 0⟩) := by
+    schemaElementTV (schemaElementOfCol c) =
+      TVal.struct (seFields ⟨⟨c.name, some (specRep c.rep), some c.ptype.code, (c.typeLen : Int), none, specLogicalOf c⟩, 0⟩) := by
+  have hl := fLogical_written c
   by_cases h0 : c.typeLen = 0
-  · simp [schemaElementTV, seFields, fOpt, fPos, fNonZero, fLogical, File.optField, strBytes_eq, h0, repCode_specRep]
+  · simp [schemaElementTV, schemaElementOfCol, seFields, fOpt, fPos, fNonZero, hl, File.optField, strBytes_eq, h0, repCode_specRep]
   · have hpos : 0 < c.typeLen := by omega
-    simp [schemaElementTV, seFields, fOpt, fPos, fNonZero, fLogical, File.optField, strBytes_eq, hpos, h0,
+    simp [schemaElementTV, schemaElementOfCol, seFields, fOpt, fPos, fNonZero, hl, File.optField, strBytes_eq, hpos, h0,
       repCode_specRep]
 
 theorem schema_written (md : FooterData) :
@@ -183,6 +200,22 @@ theorem fileMetaOf_fmFieldsW (md : FooterData) : File.fileMetaOf (fmFieldsW md) 
   rw [checkStruct_of _ _ rfl rfl]
   simp [bind, Except.bind, pure, Except.pure, File.getList, File.field?, h1, h2, schemaElementsOf_map, rowGroupsOf_map_W,
     File.natField, File.getInt, File.intOf, natCast_not_neg, fileMetaOfWritten]
+
+/-- the INDEPENDENT generic compact-protocol decoder reads the footer of a written file, to its last byte,
+as the Thrift value `fmFieldsW md` (whose schema elements are `seFields` of the tree `specSchemaOf cols`) -/
+theorem decodeStruct_written (md : FooterData) (hok : footerOk md = true) :
+    decodeStruct (FileReal.footer md) = some (TVal.struct (fmFieldsW md)) := by
+  have w := fileMetaData_wf md hok
+  have hw := (Carquet.Proofs.Thrift.writeFileMetaData_eq (FileReal.fileMetaData md)
+    (Carquet.Proofs.Thrift.lensOk_of_wf _ w)).1
+  have hdec := Carquet.Proofs.Thrift.decode_encode (fileMetaDataTV (FileReal.fileMetaData md))
+    (Carquet.Proofs.Thrift.fm_wf _ w) []
+  rw [List.append_nil, fileMetaDataTV_written] at hdec
+  rw [fileMetaDataTV_written] at hw
+  have hty : (TVal.struct (fmFieldsW md)).ty = TType.struct := rfl
+  rw [hty] at hdec
+  unfold FileReal.footer decodeStruct
+  rw [hw, hdec]
 
 /-- **footer stage**: the independent reader parses the footer of a written file to the metadata
 the writer assembled -/
